@@ -132,3 +132,63 @@ Proof.
       apply filter_all_true. intros [k v] Hin. cbn. apply negb_true_iff, beqb_false. intros ->.
       apply filter_In in Hin. destruct Hin as [Hin _]. apply (proj1 (get_None_notin _ _) G). apply (in_map fst) in Hin. exact Hin.
 Qed.
+
+(* ------------------------------------------------------------------ nest implode across fields: bystanders, for EVERY field name *)
+(* a bystander of  nest --implode --values --across-fields -f F : neither literally F_<digits> nor F itself *)
+Definition nomatch (f : bytes) (kv : field) : bool := negb (nest_suffix_ok f (fst kv)).
+Definition implode_bystander (f : bytes) (kv : field) : bool := nomatch f kv && negb (beqb f (fst kv)).
+
+Lemma take_until_match_split f r :
+  r = fst (take_until_match f r) ++ snd (take_until_match f r)
+  /\ forallb (nomatch f) (fst (take_until_match f r)) = true.
+Proof.
+  induction r as [|[k v] r IH]; cbn [take_until_match]; [split; reflexivity|].
+  destruct (nest_suffix_ok f k) eqn:E; [split; reflexivity|].
+  destruct (take_until_match f r) as [a b]. cbn [fst snd] in *. destruct IH as [H1 H2]. split.
+  - cbn. now rewrite <- H1.
+  - cbn [forallb]. unfold nomatch at 1. cbn [fst]. now rewrite E, H2.
+Qed.
+
+Lemma filter_bystander_nomatch f (x : record) : filter (implode_bystander f) (filter (nomatch f) x) = filter (implode_bystander f) x.
+Proof.
+  rewrite filter_filter. apply filter_ext. intros kv. unfold implode_bystander. destruct (nomatch f kv); reflexivity.
+Qed.
+
+Lemma drop_matching_bystanders f (x : record) : filter (implode_bystander f) (drop_matching f x) = filter (implode_bystander f) x.
+Proof.
+  induction x as [|[k v] x IH]; cbn [drop_matching]; [reflexivity|].
+  destruct (nest_suffix_ok f k) eqn:E; [|reflexivity].
+  rewrite IH. cbn [filter]. unfold implode_bystander at 2, nomatch. cbn [fst]. now rewrite E.
+Qed.
+
+Lemma bystander_f_false f v : implode_bystander f (f, v) = false.
+Proof. unfold implode_bystander. cbn. now rewrite beqb_refl, andb_false_r. Qed.
+
+Lemma filter_cons_false {A} (p : A -> bool) a l : p a = false -> filter p (a :: l) = filter p l.
+Proof. intros H. cbn. now rewrite H. Qed.
+
+Theorem implode_fields_bystanders f sep r :
+  filter (implode_bystander f) (implode_fields f sep r) = filter (implode_bystander f) r.
+Proof.
+  unfold implode_fields. destruct (take_until_match_split f r) as [Hr _].
+  destruct (take_until_match f r) as [pre rest]. cbn [fst snd] in Hr. cbv beta iota zeta.
+  destruct (filter (fun kv => nest_suffix_ok f (fst kv)) rest) as [|m ms]; [reflexivity|].
+  set (v := join_with [sep] (values (m :: ms))).
+  set (post := filter (fun kv => negb (nest_suffix_ok f (fst kv))) rest).
+  assert (Hpost : filter (implode_bystander f) post = filter (implode_bystander f) rest)
+    by (apply (filter_bystander_nomatch f rest)).
+  destruct pre as [|q pre].
+  - cbn [app] in Hr. subst r.
+    destruct (take_until_match_split f (drop_matching f rest)) as [Hd _].
+    destruct (take_until_match f (drop_matching f rest)) as [mid rest2]. cbn [fst snd] in Hd.
+    destruct rest2 as [|x rest2].
+    + destruct (has f post).
+      * rewrite filter_setv_out by (intros; apply bystander_f_false). exact Hpost.
+      * cbn [filter]. rewrite bystander_f_false. exact Hpost.
+    + rewrite filter_app. rewrite filter_cons_false by apply bystander_f_false.
+      match goal with |- context [filter (implode_bystander f) (@filter ?A ?p (x :: rest2))] =>
+        replace (filter (implode_bystander f) (@filter A p (x :: rest2))) with (filter (implode_bystander f) (x :: rest2))
+          by (symmetry; exact (filter_bystander_nomatch f (x :: rest2))) end.
+      rewrite <- filter_app, <- Hd. apply drop_matching_bystanders.
+  - subst r. rewrite !filter_app. cbn [filter]. rewrite bystander_f_false. now rewrite Hpost.
+Qed.
